@@ -379,6 +379,10 @@ def make_stack(cls, rng, o, nx, ny, nt, cb):
         return cb.ExtrudedStack(base, rng.uniform(1, 2), nt), frame
     if cls == "revolvedstack":
         return cb.RevolvedStack(base, rng.uniform(0.3, 0.8), list(ex), list(np.array(o) - ey * 4), nt), frame
+    if rng.random() < 0.4:
+        # a duct that shrinks tier by tier: Scaling without an origin means "about the sketch's own centre", one point
+        # for all faces of the sketch
+        return cb.TransformedStack(base, [cb.Translation(list(n * 1.2)), cb.Scaling(rng.choice([0.8, 0.6, 1.3]))], nt), frame
     return cb.TransformedStack(base, [cb.Translation(list(n * 1.2)), cb.Rotation(list(n), 0.3, list(o))], nt,
                                [cb.Translation(list(n * 0.6)), cb.Rotation(list(n), 0.15, list(o))]), frame
 
